@@ -520,11 +520,14 @@ def divide_outputs(
                 raise
             i += 1
 
+        # Source exhausted: close all outputs. This is inside the try block,
+        # so that if one output was killed meanwhile (e.g. by a failing saver)
+        # the other outputs are killed too, rather than left open forever.
+        for m in mbs_to_kill:
+            m.close()
+
     except Exception as e:
         for m in mbs_to_kill:
             m.kill_from_exception(e, reraise=False)
         if not isinstance(e, MailboxKilled):
             raise
-    else:
-        for m in mbs_to_kill:
-            m.close()
